@@ -66,10 +66,11 @@ Definition check_case (k : case) : bool :=
   | Single http script code res t =>
       let fs := server_emit script code in
       (* F5b: nothing of the trailer message is written, so the client sees the data frames and then the end
-         of the body: a second message is the library's own Internal, anything else the truncation error
-         (whatever the handler returned) *)
+         of the body: the truncation error (whatever the handler returned); with a second message the
+         library's own Internal races with it (the reader goes on to the end of the body while the receiver
+         fetches the lock for its verdict: model/HttpClient.v, PGot2) *)
       if http && trailer_unmarshalable script
-      then single_eqb res (if 2 <=? Z.of_nat (length (datas fs)) then OneStatus 13 else OneStatus 2)
+      then single_eqb res (OneStatus 2) || ((2 <=? Z.of_nat (length (datas fs))) && single_eqb res (OneStatus 13))
       else single_eqb (single_recv fs) res &&
            (* when the server sent more than one response the client stops at the second one and the
               call fails with the library's own Internal error: the trailers are never read *)
